@@ -271,8 +271,7 @@ func compile(patterns []string, mode Mode) (*regexp.Regexp, error) {
 							w = j + 2
 							b.WriteString(pat[:w])
 						default:
-							b.WriteRune(r)
-							break Bracket
+							continue Bracket
 						}
 					case ']':
 						b.WriteByte(']')
